@@ -350,3 +350,4 @@ def run(ctx):
 
     # shared with C19: the option that admits non-histogram operands is off unless the environment says "1"
     ctx.borrow("C19", ("default:env",), "C05.d")
+    ctx.borrow("C13", ("HistogramBase._coerce_dtype:promotes",), "C05.a")
